@@ -727,6 +727,16 @@ func (t *dexTracker) checkGauges(w *World, s *dexSnap) {
 		}
 		if master {
 			w.Stats.Probe("c19.master_gauge_epoch")
+			if b, ok := t.masterGaugeBounds(w, tr.g, poolID, tr.alloc); ok {
+				for _, f := range sortedKeys(b) {
+					if cur, has := bound[f]; has {
+						cur.Add(cur, b[f])
+					} else {
+						bound[f] = b[f]
+					}
+				}
+				continue
+			}
 			perFarmerChecked = false
 			continue
 		}
@@ -889,4 +899,133 @@ func (o *dexOracle) afterC19(w *World, ev *Event, res Result) *Violation {
 		w.Stats.Probe("c19.custody_checked_with_active_gauges")
 	}
 	return nil
+}
+
+// masterGaugeBounds: upper bound on every farmer's payout from one epoch of a master-pool gauge. A farmer of the master
+// pool is eligible with min(value farmed in the master pool, sum of the values farmed in the child pools); a farmed
+// position is valued as twice its redeemable amount of the pair's oracle-priced coin (quote coin first) at the oracle
+// price. Redeemable amounts are integers truncated by the module: each is bracketed by [q-1, q+1].
+// ok=false when the configuration is one this model does not cover (explicit child list, unpriced master pool, ...).
+func (t *dexTracker) masterGaugeBounds(w *World, g rewardstypes.Gauge, masterPool uint64, alloc sdk.Int) (map[string]*big.Rat, bool) {
+	ctx := w.Ctx()
+	lk := w.App.LiquidityKeeper
+	md := g.GetLiquidityMetaData()
+	if md == nil || len(md.ChildPoolIds) != 0 {
+		return nil, false
+	}
+	type iv struct{ lo, hi *big.Rat }
+	// value interval of a farmed amount in a pool; ok=false if the pool has no priced coin (the module skips it)
+	valuer := func(poolID uint64) (func(farmed sdk.Int) iv, bool) {
+		pl, found := lk.GetPool(ctx, g.AppId, poolID)
+		if !found {
+			return nil, false
+		}
+		pair, found := lk.GetPair(ctx, g.AppId, pl.PairId)
+		if !found {
+			return nil, false
+		}
+		rx, ry, ps := w.poolBalances(pl, pair)
+		if !ps.IsPositive() {
+			return nil, false
+		}
+		asset, err := lk.GetAssetWhoseOraclePriceExists(ctx, pair.QuoteCoinDenom, pair.BaseCoinDenom)
+		if err != nil {
+			return nil, false
+		}
+		twa, found := w.App.MarketKeeper.GetTwa(ctx, asset.Id)
+		if !found || !asset.Decimals.IsPositive() {
+			return nil, false
+		}
+		r := ry
+		if asset.Denom == pair.QuoteCoinDenom {
+			r = rx
+		}
+		unit := new(big.Rat).SetFrac(new(big.Int).SetUint64(twa.Twa*2), asset.Decimals.BigInt())
+		return func(farmed sdk.Int) iv {
+			q := new(big.Int).Quo(new(big.Int).Mul(r.BigInt(), farmed.BigInt()), ps.BigInt())
+			lo := new(big.Int).Sub(q, bigOne)
+			if lo.Sign() < 0 {
+				lo.SetInt64(0)
+			}
+			hi := new(big.Int).Add(q, bigOne)
+			return iv{new(big.Rat).Mul(new(big.Rat).SetInt(lo), unit), new(big.Rat).Mul(new(big.Rat).SetInt(hi), unit)}
+		}, true
+	}
+	mv, ok := valuer(masterPool)
+	if !ok {
+		return nil, false
+	}
+	mp, _ := lk.GetPool(ctx, g.AppId, masterPool)
+	if mp.Disabled {
+		return nil, false
+	}
+	var children []uint64
+	for _, pl := range lk.GetAllPools(ctx, g.AppId) {
+		if pl.Id != masterPool && !pl.Disabled {
+			children = append(children, pl.Id)
+		}
+	}
+	if len(children) == 0 {
+		return nil, false // standard mechanism; covered by the non-master bound only when the gauge is not flagged master
+	}
+	farmers := lk.GetAllActiveFarmers(ctx, g.AppId, masterPool)
+	if len(farmers) == 0 {
+		return map[string]*big.Rat{}, true
+	}
+	zero := func() *big.Rat { return new(big.Rat) }
+	childLo, childHi := map[string]*big.Rat{}, map[string]*big.Rat{}
+	for _, f := range farmers {
+		childLo[f.Farmer], childHi[f.Farmer] = zero(), zero()
+	}
+	for _, c := range children {
+		cv, ok := valuer(c)
+		if !ok {
+			continue // neither coin priced: the module skips this child pool
+		}
+		for _, f := range farmers {
+			addr, err := sdk.AccAddressFromBech32(f.Farmer)
+			if err != nil {
+				continue
+			}
+			af, found := lk.GetActiveFarmer(ctx, g.AppId, c, addr)
+			if !found {
+				continue
+			}
+			v := cv(af.FarmedPoolCoin.Amount)
+			childLo[f.Farmer].Add(childLo[f.Farmer], v.lo)
+			childHi[f.Farmer].Add(childHi[f.Farmer], v.hi)
+		}
+	}
+	minRat := func(a, b *big.Rat) *big.Rat {
+		if a.Cmp(b) <= 0 {
+			return a
+		}
+		return b
+	}
+	sumLo := zero()
+	eHi := map[string]*big.Rat{}
+	for _, f := range farmers {
+		m := mv(f.FarmedPoolCoin.Amount)
+		sumLo.Add(sumLo, minRat(m.lo, childLo[f.Farmer]))
+		eHi[f.Farmer] = minRat(m.hi, childHi[f.Farmer])
+	}
+	out := map[string]*big.Rat{}
+	if sumLo.Sign() <= 0 {
+		return nil, false
+	}
+	for _, f := range farmers {
+		share := new(big.Rat).Quo(eHi[f.Farmer], sumLo)
+		if share.Cmp(big.NewRat(1, 1)) > 0 {
+			share = big.NewRat(1, 1)
+		}
+		b := new(big.Rat).Mul(share, ratInt(alloc))
+		b.Mul(b, new(big.Rat).Add(big.NewRat(1, 1), big.NewRat(1, 1_000_000_000_000)))
+		b.Add(b, big.NewRat(1, 1))
+		out[f.Farmer] = b
+	}
+	w.Stats.Probe("c19.master_gauge_per_farmer_bound")
+	if len(farmers) > 1 {
+		w.Stats.Probe("c19.master_gauge_with_several_farmers")
+	}
+	return out, true
 }
